@@ -252,6 +252,15 @@ def run(ctx):
         # mostly cases in which the as-built code is expected to follow the protocol
         chosen = (pick(ctx, [c for c in scripts if not c["finding"]], 36) + pick(ctx, [c for c in scripts if c["finding"]], 8)
                   + pick(ctx, [c for c in options if not c["finding"]], 8) + pick(ctx, [c for c in options if c["finding"]], 8))
+    # always replayed (quick too): the schedules in which accounting is consulted twice for one job and the job then
+    # completes - requeue after cancellation / time-out / pre-emption, and an empty queue while accounting says running
+    twice = [c for c in scripts if c["kind"] == "slurm" and not c["finding"] and not c["opts"]["nr"] and c["sub"] == "accepted"
+             and len(c["script"]) == 2 and c["script"][1] in ("completed", "failed1")
+             and c["script"][0] in ("cancelled", "timeout", "preempted", "acctrunning")]
+    by_script = {}
+    for c in twice:
+        by_script.setdefault(json.dumps(c["script"]), c)
+    chosen = list(by_script.values()) + chosen
     seen, cases = set(), []
     for c in chosen:
         k = json.dumps([c["kind"], c["opts"], c["sub"], c["script"]], sort_keys=True)
